@@ -428,7 +428,7 @@ pub fn run(ctx: &RunCtx) -> i32 {
     total.note(format!("exhaustive: {} patterns (length <= {pl}) x {} inputs (length <= {sl})", pats.len() - 1, inputs.len()));
 
     // random part: longer, unicode, sets
-    let n_rand = ctx.tier.sz(40_000, 2_000_000);
+    let n_rand = ctx.tier.sz(300_000, 8_000_000);
     let chunk = 2000u64;
     let rnd = par_run(ctx.workers, n_rand.div_ceil(chunk), |j, r| {
         let mut g = Rng::new(derive_seed(ctx.seed, "C20/random", j));
@@ -471,7 +471,7 @@ pub fn run(ctx: &RunCtx) -> i32 {
     total.merge(rnd);
 
     // policies
-    let n_pol = ctx.tier.sz(3000, 200_000);
+    let n_pol = ctx.tier.sz(20_000, 800_000);
     let pol = par_run(ctx.workers, n_pol.div_ceil(100), |j, r| {
         let mut g = Rng::new(derive_seed(ctx.seed, "C20/policy", j));
         for _ in 0..100 {
